@@ -1,23 +1,152 @@
 import MakoModel.Basic.Wire
-import MakoModel.Control.Printer
+import MakoModel.Control.Fragment
 /-!
 Driver handler `ctl` (C03):
 
-    ctl re <str>                       the six printer regexes on a line:
-                                       spaceComment space indent compound(kw|none) indentKeyword unindentor
-    ctl print <line|N>*                `writeline` over a line sequence (`N` = `None`): `err indent detail… | d1 d2 …`
-                                       (indent level of every written line)
+    ctl re <str>                  the six printer regexes on a line:
+                                  spaceComment space indent compound(kw|none) indentKeyword unindentor
+    ctl print <W<line>|N|B<text>>*  printer calls (`N` = `writeline(None)`, `B…` = `write_indented_block`):
+                                  `err indent detail… | d1 d2 …` (indent level of every written entry)
+    ctl lex <str>                 the control-line regex at a line start: `none` | `<0|1 comment> <text>`
+    ctl frag <str>                `PythonFragment`: `<kw|none> <HeaderOk>`
+    ctl gen <el> CT               printer calls of the visitor + what the printer makes of them:
+                                  `<ev>* | err | <d>:<line>*`
+    ctl kids CT                   the `nodes` list of every control line that is not an end line, in document
+                                  order, `;`-separated; kinds `c` (comment) `o` (other) `l<kw>:<isend>`
+    ctl loop <len> <index> <nvals>  LoopContext: `index first last even odd reverse_index cycle-index|none`
+    ctl decl <el> <name>*         lines of write_variable_declares for plain names
+
+    CT    ::= nil | c CT | s <line> <loopRef> <n> K* CT | b <text> <loopRef> CT | q <loopRef> <n> K* CT
+            | ctl HDR CT TERNS CT
+    TERNS ::= tn | tc HDR CT TERNS
+    HDR   ::= <kw> <text> <loopRef> (0 | 1 <target> <iter>)
+    K     ::= kc | ko | kl <kw> <isend>
 -/
 namespace MakoModel.Control.Drv
 open MakoModel.Wire MakoModel.Control
 
-def pLine (f : String) : Option (Option Str) :=
-  if f == "N" then some none else (decStr f).map some
+abbrev P (α : Type) := List String → Option (α × List String)
+
+def pLine (f : String) : Option Ev :=
+  if f == "N" then some (.wl none)
+  else if f.startsWith "B" then (decStr (f.drop 1).toString).map .blk
+  else if f.startsWith "W" then (decStr (f.drop 1).toString).map (fun s => .wl (some s))
+  else none
 
 def showDetail (d : Option Str) : String :=
   match d with
   | none => "none"
   | some k => String.ofList k
+
+def pNat : P Nat
+  | t :: r => t.toNat?.map (·, r)
+  | [] => none
+
+def pBool : P Bool
+  | "1" :: r => some (true, r)
+  | "0" :: r => some (false, r)
+  | _ => none
+
+def pStr : P Str
+  | t :: r => (decStr t).map (·, r)
+  | [] => none
+
+def pKind : P CKind
+  | "kc" :: r => some (.comment, r)
+  | "ko" :: r => some (.other, r)
+  | "kl" :: r => do
+    let (kw, r) ← pStr r
+    let (e, r) ← pBool r
+    pure (.ctl kw e, r)
+  | _ => none
+
+def pMany {α} (p : P α) : Nat → P (List α)
+  | 0, ts => some ([], ts)
+  | n + 1, ts => do
+    let (a, r) ← p ts
+    let (as, r2) ← pMany p n r
+    pure (a :: as, r2)
+
+def pHdr : P Hdr := fun ts => do
+  let (kw, r) ← pStr ts
+  let (text, r) ← pStr r
+  let (lr, r) ← pBool r
+  let (hp, r) ← pBool r
+  if hp then
+    let (tg, r) ← pStr r
+    let (it, r) ← pStr r
+    pure (⟨kw, text, lr, some (tg, it)⟩, r)
+  else pure (⟨kw, text, lr, none⟩, r)
+
+mutual
+def pCT : Nat → P CT
+  | 0, _ => none
+  | fuel + 1, ts =>
+    match ts with
+    | "nil" :: r => some (.nil, r)
+    | "c" :: r => do
+      let (rest, r) ← pCT fuel r
+      pure (.leaf .comment rest, r)
+    | "s" :: r => do
+      let (line, r) ← pStr r
+      let (lr, r) ← pBool r
+      let (n, r) ← pNat r
+      let (ks, r) ← pMany pKind n r
+      let (rest, r) ← pCT fuel r
+      pure (.leaf (.stmt line lr ks) rest, r)
+    | "b" :: r => do
+      let (text, r) ← pStr r
+      let (lr, r) ← pBool r
+      let (rest, r) ← pCT fuel r
+      pure (.leaf (.block text lr) rest, r)
+    | "q" :: r => do
+      let (lr, r) ← pBool r
+      let (n, r) ← pNat r
+      let (ks, r) ← pMany pKind n r
+      let (rest, r) ← pCT fuel r
+      pure (.leaf (.silent lr ks) rest, r)
+    | "ctl" :: r => do
+      let (hdr, r) ← pHdr r
+      let (body, r) ← pCT fuel r
+      let (terns, r) ← pTerns fuel r
+      let (rest, r) ← pCT fuel r
+      pure (.ctl hdr body terns rest, r)
+    | _ => none
+def pTerns : Nat → P Terns
+  | 0, _ => none
+  | fuel + 1, ts =>
+    match ts with
+    | "tn" :: r => some (.nil, r)
+    | "tc" :: r => do
+      let (hdr, r) ← pHdr r
+      let (body, r) ← pCT fuel r
+      let (more, r) ← pTerns fuel r
+      pure (.cons hdr body more, r)
+    | _ => none
+end
+
+def showEv : Ev → String
+  | .wl none => "N"
+  | .wl (some s) => "W" ++ encStr s
+  | .blk t => "B" ++ encStr t
+
+def showKind : CKind → String
+  | .comment => "c"
+  | .other => "o"
+  | .ctl kw e => "l" ++ String.ofList kw ++ ":" ++ encBool e
+
+mutual
+/-- the children lists, in document order of the control lines -/
+def kidsOf : CT → List (List CKind)
+  | .nil => []
+  | .leaf _ rest => kidsOf rest
+  | .ctl hdr body terns rest =>
+    primaryChildren hdr.kw body terns :: (kidsOf body ++ kidsT hdr.kw terns ++ kidsOf rest)
+def kidsT (kw : Str) : Terns → List (List CKind)
+  | .nil => []
+  | .cons _ body more =>
+    ternaryChildren kw body (match more with | .nil => true | _ => false) :: (kidsOf body ++ kidsT kw more)
+end
 
 def handle : Handler
   | ["re", s] => do
@@ -30,6 +159,38 @@ def handle : Handler
     let σ := run PS.init ls
     pure (" ".intercalate ([encBool σ.err, toString σ.indent] ++ σ.detail.map showDetail ++ ["|"] ++
       σ.out.map (fun p => toString p.1)))
+  | ["lex", s] => do
+    let s ← decStr s
+    pure (match lexCtl s with
+      | none => "none"
+      | some (c, t) => encBool c ++ " " ++ encStr t)
+  | ["frag", s] => do
+    let s ← decStr s
+    pure ((match fragmentAdmits s with | none => "none" | some k => String.ofList k) ++ " " ++ encBool (HeaderOk s))
+  | "gen" :: el :: ts => do
+    let el ← decBool el
+    let (t, r) ← pCT (ts.length + 1) ts
+    if !r.isEmpty then none else
+    let evs := emitCT el t
+    let σ := run PS.init evs
+    pure (" ".intercalate (evs.map showEv ++ ["|", encBool σ.err, "|"] ++
+      σ.out.map (fun p => toString p.1 ++ ":" ++ encStr p.2)))
+  | "kids" :: ts => do
+    let (t, r) ← pCT (ts.length + 1) ts
+    if !r.isEmpty then none else
+    pure (";".intercalate ((kidsOf t).map fun ks => " ".intercalate (ks.map showKind)))
+  | ["loop", len, idx, nv] => do
+    let len ← len.toNat?
+    let idx ← idx.toNat?
+    let nv ← nv.toNat?
+    let c : LoopCtx := ⟨len, idx⟩
+    pure (" ".intercalate [toString c.index, encBool c.first, encBool c.last, encBool c.even, encBool c.odd,
+      toString c.reverseIndex,
+      (match c.cycle (List.range nv) with | none => "none" | some i => toString i)])
+  | "decl" :: el :: names => do
+    let el ← decBool el
+    let names ← names.mapM decStr
+    pure (encList (declares el names))
   | _ => none
 
 end MakoModel.Control.Drv
